@@ -119,7 +119,14 @@ def putArray (k : Kind) (e : Endian) (t : Ty) (vs : List Nat) : List UInt8 :=
 def putStrArray (k : Kind) (e : Endian) (ss : List (List UInt8)) : Option (List UInt8) :=
   if arraySwap k e arithString then some (ss.flatMap id) else none
 
-/-- `stream << const char*`: `write(x, strlen(x))` -/
+/-- `StreamBuffer << T[N]` (commit 7c56539): `for (i < N) *this << x[i]` — item by item in every byte order
+    (before, the generic `operator<<(const T&)` reversed all `N*sizeof(T)` bytes in the non-native order).
+    File and Socket have no such operator (a C array does not compile there). -/
+def putCArray (k : Kind) (e : Endian) (t : Ty) (vs : List Nat) : List UInt8 :=
+  vs.flatMap (putScalar k e t)
+
+/-- `stream << const char*`, and since commit 7c56539 also `<< char*` / `<< char[N]` (before, the generic operator
+    wrote the pointer value, resp. the N bytes of the buffer): `write(x, strlen(x))` -/
 def putCStr (bs : List UInt8) : List UInt8 := bs.takeWhile (· != 0)
 
 /-- one write operation; `setEndian` only changes the stream's byte order -/
@@ -130,6 +137,7 @@ inductive WOp where
   | bytes (bs : List UInt8)      -- ByteArray / String: `write(data, length)`
   | cstr (bs : List UInt8)       -- const char*
   | strArray (ss : List (List UInt8))   -- Array<String>
+  | carray (t : Ty) (vs : List Nat)     -- T[N] (StreamBuffer)
 deriving Repr
 
 /-- new byte order and the bytes appended by the operation -/
@@ -139,6 +147,7 @@ def writeOp (k : Kind) (e : Endian) : WOp → Endian × List UInt8
   | .array t vs => (e, putArray k e t (vs.map (norm t)))
   | .bytes bs => (e, bs)
   | .cstr bs => (e, putCStr bs)
+  | .carray t vs => (e, putCArray k e t (vs.map (norm t)))
   | .strArray ss => (e, (putStrArray k e ss).getD [])   -- never `none`: `C16.string_array_canonical`
 
 /-- a whole write history: final byte order and everything written -/
@@ -255,8 +264,9 @@ def need (k : Kind) (t : Ty) : Nat :=
 
 /-- `File::operator>>(String&)` (after commit e37681a): `int n = 0; *this >> n;` then at most `n` bytes in blocks —
     a negative `n` gives the empty string, an `n` beyond the end what is there.
-    `Socket::operator>>(String&)`: `*this >> n; x = readString(n)`; `readString` treats a negative `n` as 0 and ends
-    with `s.fix()` (`strlen`), so the result stops at the first NUL; with fewer than `n` bytes pending it would block
+    `Socket::operator>>(String&)`: `*this >> n; x = readString(n)`; `readString` treats a negative `n` as 0 and sets the
+    length to the number of bytes read (`s.fix(n)`, commit b125771; it used `strlen` before and cut the value at the first
+    NUL); with fewer than `n` bytes pending it would block
     (and allocates `n` bytes first): `none`, as for fewer than 4 bytes (partial length) and for StreamBufferReader,
     which has no such operator. -/
 def getString (k : Kind) (e : Endian) (bs : List UInt8) : Option (List UInt8 × List UInt8) :=
@@ -268,7 +278,7 @@ def getString (k : Kind) (e : Endian) (bs : List UInt8) : Option (List UInt8 × 
     let n := r.1
     if n ≥ 2 ^ 31 then some ([], r.2)
     else if k == .sock then
-      if r.2.length < n then none else some ((r.2.take n).takeWhile (· != 0), r.2.drop n)
+      if r.2.length < n then none else some (r.2.take n, r.2.drop n)
     else some (r.2.take n, r.2.drop n)
 
 inductive ROp where
